@@ -110,6 +110,11 @@ def scan : List Str → Scan → Except Str Scan
 def HELP1 : Str := S "hera: an interpreter for the Haverford Educational RISC Architecture."
 def VERSION : Str := S "hera-py 1.0.7 for HERA version 2.4"
 
+/-- the mode: the first of debug, assemble, preprocess, disassemble that was given, else run mode `""` -/
+def modeOf (f : Flags) : Str :=
+  if f.has (S "debug") then S "debug" else if f.has (S "assemble") then S "assemble"
+  else if f.has (S "preprocess") then S "preprocess" else if f.has (S "disassemble") then S "disassemble" else S ""
+
 /-- everything after the scan -/
 def finish (st : Scan) : Outcome :=
   let f := st.flags
@@ -125,9 +130,7 @@ def finish (st : Scan) : Outcome :=
     | [] => .usage (S "No file path supplied.")
     | _ :: _ :: _ => .usage (S "Too many file paths supplied.")
     | [path] =>
-      let mode : Str :=
-        if f.has (S "debug") then S "debug" else if f.has (S "assemble") then S "assemble"
-        else if f.has (S "preprocess") then S "preprocess" else if f.has (S "disassemble") then S "disassemble" else S ""
+      let mode : Str := modeOf f
       match PICKY.find? (fun p => f.has p.1 && !p.2.contains mode) with
       | some p => .usage (p.1 ++ S " is not compatible with the chosen mode.")
       | none =>
